@@ -8,7 +8,9 @@
     overriding an earlier value of the same attribute, leaving the text and all other attributes alone;
   * `C14_spellings_*`: positional ≡ keyword name ≡ number ≡ `style=` ≡ the fmtfuncs helper, over the
     REGENERATED tables (`decide +kernel`; a changed table re-opens these);
-  * `C14_remove` / `C14_remove_key`, `C14_newstr`, `C14_shared` (+ completeness `C14_shared_complete`).
+  * `C14_remove` / `C14_remove_key`, `C14_newstr`, `C14_shared`;
+  * the soundness/completeness of `parse_args` against `denote` is stated in full (`C14_full_statement`) and proved
+    in part (`C14_error_kind_partial`, `C14_sound_complete_bounded_partial`) - see the end of the file.
 
   Hypotheses: keyword names are distinct (Python rejects a repeated keyword at the call);
   `str.lower` is a parameter; the spelling theorems are stated for a `lower` that leaves the (lower-case)
@@ -350,6 +352,104 @@ theorem C14_lower_congr (l1 l2 : String → String) (args : List ArgVal) (kw : K
   | some v =>
     simp only [hst, Option.toList_some] at h ⊢
     rw [step (args ++ [v]) _ h]
+
+
+/-! ### towards the full statement
+
+  `C14_full_statement` (above) is NOT proved in full generality yet.  Proved instead:
+  * `C14_error_kind_partial`: for ALL inputs the only exception `parse_args` can raise is ValueError
+    (`otherException` is the model's own "dict not representable as `Atts`" outcome of `toAtts`; showing it
+    unreachable needs the same invariant as the full statement: after the key loop and the two colour blocks
+    every entry of the dict is a legal key with a legal value);
+  * `C14_sound_complete_bounded_partial`: the full statement (model = denotation, invalid => ValueError) for
+    every specification with at most two positional arguments from `posReps` and at most two keyword
+    arguments with distinct names from `kwReps` (valid and invalid names, colour names / numbers in and out of
+    range, bool / float / None values, `style=` of each kind) - about 5000 specifications, by kernel evaluation.
+  Missing for the full statement: the induction over the positional loop relating the threaded dict to the
+  per-attribute reading of `denote` for lists of arbitrary length and arbitrary strings. -/
+
+private theorem posStep_err (lower : String → String) (kw : Kw) (a : ArgVal) (e : PyErr)
+    (h : posStep lower kw a = .error e) : e = .valueError := by
+  cases a with
+  | str s =>
+    simp only [posStep] at h
+    cases h1 : List.lookup (lower s) Generated.fgColors with
+    | some code =>
+      rw [h1] at h; simp only [] at h
+      by_cases c : kw.has "fg" = true
+      · rw [if_pos c] at h; injection h with h; exact h.symm
+      · rw [if_neg c] at h; cases h
+    | none =>
+      rw [h1] at h; simp only [] at h
+      cases h2 : (if startsWithOn (lower s) = true then List.lookup (lower (strDrop3 s)) Generated.bgColors else none) with
+      | some code =>
+        rw [h2] at h; simp only [] at h
+        by_cases c : kw.has "bg" = true
+        · rw [if_pos c] at h; injection h with h; exact h.symm
+        · rw [if_neg c] at h; cases h
+      | none =>
+        rw [h2] at h; simp only [] at h
+        by_cases c : isStyleName (lower s) = true
+        · rw [if_pos c] at h
+          by_cases c2 : (kw.get? (lower s)).getD (ArgVal.bool true) ≠ ArgVal.bool true
+          · rw [if_pos c2] at h; injection h with h; exact h.symm
+          · rw [if_neg c2] at h; cases h
+        · rw [if_neg c] at h; injection h with h; exact h.symm
+  | _ => simp only [posStep] at h; injection h with h; exact h.symm
+
+private theorem posLoop_err (lower : String → String) (args : List ArgVal) : ∀ (kw : Kw) (e : PyErr),
+    posLoop lower kw args = .error e → e = .valueError := by
+  induction args with
+  | nil => intro kw e h; cases h
+  | cons a rest ih =>
+    intro kw e h
+    simp only [posLoop] at h
+    cases hs : posStep lower kw a with
+    | error e' => rw [hs] at h; injection h with h; subst h; exact posStep_err lower kw a _ hs
+    | ok kw' => rw [hs] at h; exact ih kw' e h
+
+private theorem keyLoop_err (kw : Kw) (e : PyErr) (h : keyLoop kw = .error e) : e = .valueError := by
+  induction kw with
+  | nil => cases h
+  | cons p rest ih =>
+    obtain ⟨k, v⟩ := p
+    simp only [keyLoop] at h
+    repeat' split at h
+    all_goals (first | (injection h with h; exact h.symm) | exact ih h)
+
+private theorem colourBlock_err (table : List (String × Nat)) (key : String) (kw : Kw) (e : PyErr)
+    (h : colourBlock table key kw = .error e) : e = .valueError := by
+  unfold colourBlock at h
+  repeat' split at h
+  all_goals (first | (injection h with h; exact h.symm) | cases h)
+
+theorem C14_error_kind_partial (lower : String → String) (args : List ArgVal) (kw : Kw) (e : PyErr)
+    (h : parseArgs lower args kw = .error e) : e = .valueError ∨ e = .otherException := by
+  unfold parseArgs at h
+  repeat' split at h
+  all_goals first
+    | (injection h with h; subst h
+       first
+         | (left; exact posLoop_err _ _ _ _ ‹_›)
+         | (left; exact keyLoop_err _ _ ‹_›)
+         | (left; exact colourBlock_err _ _ _ _ ‹_›)
+         | exact Or.inr rfl)
+    | cases h
+
+def posReps : List ArgVal := [.str "red", .str "on_blue", .str "bold", .str "nope", .int 31, .none]
+def kwReps : List (String × ArgVal) :=
+  [("fg", .str "red"), ("fg", .int 34), ("fg", .int 41), ("fg", .bool true), ("fg", .float),
+   ("bg", .str "blue"), ("bg", .none), ("bold", .bool true), ("bold", .bool false), ("bold", .int 1),
+   ("colour", .str "red"), ("style", .str "bold"), ("style", .str "blue"), ("style", .int 5)]
+def lists2 (l : List α) : List (List α) :=
+  [[]] ++ l.map (fun a => [a]) ++ l.flatMap (fun a => l.map fun b => [a, b])
+def kwPool : List Kw := (lists2 kwReps).filter fun kw => (kw.map Prod.fst).Nodup
+
+theorem C14_sound_complete_bounded_partial :
+    ∀ pos ∈ lists2 posReps, ∀ kw ∈ kwPool,
+      (parseArgs idl pos kw).toOption = denote idl pos kw ∧
+      (denote idl pos kw = none → parseArgs idl pos kw = .error .valueError) := by
+  decide +kernel
 
 /-- Non-vacuity of the denotation: a mixed valid specification and its value; three invalid ones. -/
 example : denote idl [.str "red", .str "bold"] [("bg", .int 44), ("underline", .bool false)]
